@@ -17,7 +17,8 @@ package profiledb
 //@   invariant forall id agd.ProfileID :: has(self.profiles, id) ==> self.profiles[id] != nil
 
 //@ pred DB(db *Default) = db.mapsMu != nil && db.profiles != nil && db.devices != nil && db.dedicatedIPToDeviceID != nil &&
-//@      db.deviceIDToProfileID != nil && db.humanIDToDeviceID != nil && db.linkedIPToDeviceID != nil && db.logger != nil && db.metrics != nil
+//@      db.deviceIDToProfileID != nil && db.humanIDToDeviceID != nil && db.linkedIPToDeviceID != nil && db.logger != nil && db.metrics != nil &&
+//@      db.dedicatedIPToDeviceID != db.linkedIPToDeviceID
 
 // The lookups, as functions of the six maps (index hit followed by every
 // re-check the code performs).  devOK: the device id leads to a profile that
@@ -27,10 +28,12 @@ package profiledb
 //@      db.profiles[db.deviceIDToProfileID[id]] != nil && inIDs(db.profiles[db.deviceIDToProfileID[id]].DeviceIDs, id) &&
 //@      has(db.devices, id) && db.devices[id] != nil
 //@ pred foundLinked(db *Default, ip netip.Addr) = has(db.linkedIPToDeviceID, ip) && devOK(db, db.linkedIPToDeviceID[ip]) &&
-//@      db.devices[db.linkedIPToDeviceID[ip]].LinkedIP == ip
+//@      db.devices[db.linkedIPToDeviceID[ip]].LinkedIP == ip && ip != zero(netip.Addr)
 //@ pred inAddrs(ips []netip.Addr, ip netip.Addr) = exists i int :: 0 <= i && i < len(ips) && ips[i] == ip
 //@ pred foundDedicated(db *Default, ip netip.Addr) = has(db.dedicatedIPToDeviceID, ip) && devOK(db, db.dedicatedIPToDeviceID[ip]) &&
 //@      inAddrs(db.devices[db.dedicatedIPToDeviceID[ip]].DedicatedIPs, ip)
+//@ fun humanKey(lower agd.HumanIDLower, profile agd.ProfileID) humanIDKey
+//@ pred foundHumanBy(db *Default, pid agd.ProfileID, hid agd.HumanIDLower) = exists q humanIDKey :: q.lower == hid && q.profile == pid && foundHuman(db, q)
 //@ pred foundHuman(db *Default, k humanIDKey) = has(db.profiles, k.profile) && has(db.humanIDToDeviceID, k) && devOK(db, db.humanIDToDeviceID[k]) &&
 //@      db.devices[db.humanIDToDeviceID[k]].HumanIDLower == k.lower
 
@@ -62,3 +65,94 @@ package profiledb
 //@   requires DB(db)
 //@   modifies mapof(db.deviceIDToProfileID)
 //@   ensures cleanup-invisible: forall j agd.DeviceID :: devOK(db, j) == locked(devOK(db, j))
+
+// ---------------------------------------------------------------------------
+// C14, lookups: the answer is exactly the lookup function of the maps as they
+// are when the read lock is taken.
+
+//@ func (*Default).profileByDeviceID
+//@   property C14
+//@   held db.mapsMu
+//@   requires DB(db)
+//@   ensures found-iff-current-owner: (err == nil) == devOK(db, id)
+//@   ensures err == nil ==> p == db.profiles[db.deviceIDToProfileID[id]] && d == db.devices[id] && p != nil && d != nil
+//@   ensures err != nil ==> p == nil && d == nil
+//@   loop 1 invariant -1 <= #i && #i < len(p.DeviceIDs)
+//@   loop 1 invariant forall k int :: 0 <= k && k <= #i ==> p.DeviceIDs[k] != id
+
+//@ func (*Default).ProfileByDeviceID
+//@   property C14
+//@   requires DB(db)
+//@   ensures found-iff-current-owner: (err == nil) == locked(devOK(db, id))
+//@   ensures err == nil ==> p == locked(db.profiles[db.deviceIDToProfileID[id]]) && d == locked(db.devices[id])
+
+//@ func (*Default).ProfileByLinkedIP
+//@   property C14
+//@   requires DB(db)
+//@   ensures found-iff-current-owner: (err == nil) == locked(foundLinked(db, ip))
+//@   ensures err == nil ==> d == locked(db.devices[db.linkedIPToDeviceID[ip]]) && p == locked(db.profiles[db.deviceIDToProfileID[db.linkedIPToDeviceID[ip]]])
+
+//@ func (*Default).ProfileByDedicatedIP
+//@   property C14
+//@   requires DB(db)
+//@   ensures found-iff-current-owner: (err == nil) == locked(foundDedicated(db, ip))
+//@   ensures err == nil ==> d == locked(db.devices[db.dedicatedIPToDeviceID[ip]])
+
+//@ func (*Default).ProfileByHumanID
+//@   property C14
+//@   requires DB(db)
+//@   let k = humanKey(humanID, id)
+//@   ensures found-iff-current-owner: (err == nil) == locked(foundHumanBy(db, id, humanID))
+
+// ---------------------------------------------------------------------------
+// C14, synchronisation: the latest response wins.  For a response whose
+// devices have distinct IDs and distinct linked addresses, after setDevices
+// every device of the response is the owner of its ID and of its linked
+// address, and nothing else in those two indexes changes.
+
+//@ pred validDevs(ds []*agd.Device) = forall i int :: 0 <= i && i < len(ds) ==> ds[i] != nil
+//@ pred distinctDevs(ds []*agd.Device) = forall i int, j int :: 0 <= i && i < j && j < len(ds) ==>
+//@        ds[i].ID != ds[j].ID && (ds[i].LinkedIP != zero(netip.Addr) ==> ds[i].LinkedIP != ds[j].LinkedIP)
+//@ pred devInResp(ds []*agd.Device, n int, id agd.DeviceID) = exists i int :: 0 <= i && i <= n && i < len(ds) && ds[i].ID == id
+//@ pred ipInResp(ds []*agd.Device, n int, ip netip.Addr) = exists i int :: 0 <= i && i <= n && i < len(ds) && ds[i].LinkedIP == ip && ip != zero(netip.Addr)
+
+//@ func (*Default).setDevices
+//@   property C14
+//@   held db.mapsMu
+//@   requires DB(db) && validDevs(devices) && distinctDevs(devices)
+//@   modifies mapof(db.devices), mapof(db.dedicatedIPToDeviceID), mapof(db.linkedIPToDeviceID), mapof(db.humanIDToDeviceID)
+//@   ensures latest-device-wins: forall i int :: 0 <= i && i < len(devices) ==> has(db.devices, devices[i].ID) && db.devices[devices[i].ID] == devices[i]
+//@   ensures other-devices-kept: forall id agd.DeviceID :: !devInResp(devices, len(devices), id) ==>
+//@             has(db.devices, id) == old(has(db.devices, id)) && db.devices[id] == old(db.devices[id])
+//@   ensures profiles-untouched: forall id agd.DeviceID :: has(db.deviceIDToProfileID, id) == old(has(db.deviceIDToProfileID, id)) &&
+//@             db.deviceIDToProfileID[id] == old(db.deviceIDToProfileID[id])
+//@   loop 1 invariant -1 <= #i && #i < len(devices)
+//@   loop 1 invariant forall i int :: 0 <= i && i <= #i ==> has(db.devices, devices[i].ID) && db.devices[devices[i].ID] == devices[i]
+//@   loop 1 invariant forall id agd.DeviceID :: !devInResp(devices, #i, id) ==>
+//@             has(db.devices, id) == old(has(db.devices, id)) && db.devices[id] == old(db.devices[id])
+//@   loop 2 invariant -1 <= #i && #i < len(d.DedicatedIPs) && -1 <= #i1 && #i1 + 1 < len(devices) && d == devices[#i1 + 1]
+//@   loop 2 invariant forall i int :: 0 <= i && i <= #i1 + 1 ==> has(db.devices, devices[i].ID) && db.devices[devices[i].ID] == devices[i]
+//@   loop 2 invariant forall id agd.DeviceID :: !devInResp(devices, #i1 + 1, id) ==>
+//@             has(db.devices, id) == old(has(db.devices, id)) && db.devices[id] == old(db.devices[id])
+
+//@ pred validProfs(ps []*agd.Profile) = forall i int :: 0 <= i && i < len(ps) ==> ps[i] != nil
+
+// A full synchronisation forgets every index before applying the response:
+// keys that no device of the response owns are not found afterwards.
+//@ func (*Default).setProfiles
+//@   property C14
+//@   requires DB(db) && validDevs(devices) && distinctDevs(devices) && validProfs(profiles)
+//@   modifies mapof(db.profiles), mapof(db.devices), mapof(db.dedicatedIPToDeviceID), mapof(db.deviceIDToProfileID), mapof(db.humanIDToDeviceID), mapof(db.linkedIPToDeviceID)
+//@   ensures latest-device-wins: forall i int :: 0 <= i && i < len(devices) ==> has(db.devices, devices[i].ID) && db.devices[devices[i].ID] == devices[i]
+//@   ensures full-sync-forgets-the-rest: isFullSync ==> (forall id agd.DeviceID :: !devInResp(devices, len(devices), id) ==> !has(db.devices, id))
+//@   ensures partial-sync-keeps-the-rest: !isFullSync ==> (forall id agd.DeviceID :: !devInResp(devices, len(devices), id) ==>
+//@             has(db.devices, id) == locked(has(db.devices, id)) && db.devices[id] == locked(db.devices[id]))
+//@   loop 1 invariant -1 <= #i && #i < len(profiles)
+//@   loop 1 invariant forall id agd.ProfileID :: has(db.profiles, id) ==> db.profiles[id] != nil
+//@   loop 1 invariant forall id agd.DeviceID :: has(db.devices, id) == (isFullSync ? false : locked(has(db.devices, id))) && (!isFullSync ==> db.devices[id] == locked(db.devices[id]))
+//@   loop 2 invariant -1 <= #i && #i < len(p.DeviceIDs) && -1 <= #i1 && #i1 + 1 < len(profiles) && p == profiles[#i1 + 1] && p != nil
+//@   loop 2 invariant forall id agd.ProfileID :: has(db.profiles, id) ==> db.profiles[id] != nil
+//@   loop 2 invariant forall id agd.DeviceID :: has(db.devices, id) == (isFullSync ? false : locked(has(db.devices, id))) && (!isFullSync ==> db.devices[id] == locked(db.devices[id]))
+
+//@ interface Metrics method *
+//@   modifies nothing
